@@ -293,7 +293,7 @@ fn ck_rep_roundtrip(shape: &[usize], n: usize, absent: bool, has_label: bool, ha
     let bits: u8 = kani::any();
     kani::assume(bits < 16);
     let label: Option<u8> = if has_label { Some(kani::any()) } else { None };
-    let keys: Option<MapKeys> = if has_keys { Some(MapKeys { reversed: 0, token: kani::any() }) } else { None };
+    let keys: Option<MapKeys> = if has_keys { Some(MapKeys { reversed: 0, token: kani::any(), len: 0 }) } else { None };
     let meta = if absent {
         ArrayMeta(None)
     } else {
@@ -997,6 +997,72 @@ fn h_last_mat2x2() {
 #[kani::unwind(8)]
 fn h_last_scalar() {
     ck_first_last(&[], 1, true);
+}
+// ---------------- drop along the leading axis (src/algorithm/dyadic/structure.rs) ----------------
+/// C08: `drop n` keeps the rows after the first n (n >= 0) or before the last |n| (n < 0), all of them gone when
+/// |n| >= the row count; C05: the result is well-formed, truthfully marked, and if it is a map its key table
+/// describes exactly the rows that are left
+fn ck_drop(shape: &[usize], n_elems: usize, with_keys: bool) {
+    // concrete amounts (a symbolic amount makes every buffer length symbolic, which CBMC does not survive);
+    // isize::MIN is among them because the code takes unsigned_abs()
+    let amounts: [Result<isize, bool>; 7] = [Ok(0), Ok(1), Ok(3), Ok(7), Ok(-1), Ok(isize::MIN), Err(true)];
+    let mut k = 0;
+    while k < amounts.len() {
+        ck_drop_one(shape, n_elems, with_keys, amounts[k]);
+        k += 1;
+    }
+}
+fn ck_drop_one(shape: &[usize], n_elems: usize, with_keys: bool, amount: Result<isize, bool>) {
+    let buf: [u8; 6] = kani::any();
+    let data = buf[..n_elems].to_vec();
+    let bits: u8 = kani::any();
+    kani::assume(bits < 16);
+    let rc = shape[0];
+    let rl: usize = shape.iter().skip(1).product();
+    let keys = if with_keys { Some(MapKeys { reversed: 0, token: 1, len: rc }) } else { None };
+    let a = Array { shape: Shape(shape.to_vec()), data: Data(data.clone()), meta: ArrayMeta(Some(Arc::new(ArrayMetaInner { flags: ArrayFlags(bits), map_keys: keys, ..Default::default() }))) };
+    kani::assume(truthful(&a));
+    let env = Uiua { fill: None };
+    let n: isize = amount.unwrap_or(0);
+    let idx = [amount];
+    let all = idx[0].is_err();
+    let r = a.drop(&idx, &env).unwrap();
+    let gone = if all || n.unsigned_abs() >= rc { rc } else { n.unsigned_abs() };
+    let left = rc - gone;
+    assert!(r.shape.len() == shape.len() && r.shape[0] == left && same_usize(&r.shape[1..], &shape[1..]));
+    let want = if all || n >= 0 { &data[gone * rl..] } else { &data[..left * rl] };
+    assert!(same_u8(&r.data, want));
+    assert!(truthful(&r));
+    if with_keys {
+        // the key table follows the rows
+        assert!(r.meta.map_keys.is_some() && r.meta.map_keys.as_ref().unwrap().len == left);
+    } else {
+        assert!(r.meta.map_keys.is_none());
+    }
+}
+//@ id=C08.e3.drop.list3.plain props=C08,C05,C16,C09 level=bounded tier=quick budget=900 bound="byte array of shape [3], amounts 0, 1, 3, 7, -1, isize::MIN and 'all', all truthful mark sets, without map keys (key table abstracted to its row count, per the contracts of MapKeys::drop / take)" desc="Array::drop along the leading axis keeps exactly the documented rows; the result is well-formed and truthfully marked"
+#[kani::proof]
+#[kani::unwind(9)]
+fn h_drop_list3_plain() {
+    ck_drop(&[3], 3, false);
+}
+//@ id=C08.e3.drop.list3.map props=C08,C05,C16,C09 level=bounded tier=quick budget=900 bound="byte array of shape [3], amounts 0, 1, 3, 7, -1, isize::MIN and 'all', all truthful mark sets, with map keys (key table abstracted to its row count, per the contracts of MapKeys::drop / take)" desc="Array::drop along the leading axis keeps exactly the documented rows; the result is well-formed and truthfully marked; the key table describes exactly the rows that are left"
+#[kani::proof]
+#[kani::unwind(9)]
+fn h_drop_list3_map() {
+    ck_drop(&[3], 3, true);
+}
+//@ id=C08.e3.drop.mat2x2.plain props=C08,C05,C16,C09 level=bounded tier=quick budget=900 bound="byte array of shape [2, 2], amounts 0, 1, 3, 7, -1, isize::MIN and 'all', all truthful mark sets, without map keys (key table abstracted to its row count, per the contracts of MapKeys::drop / take)" desc="Array::drop along the leading axis keeps exactly the documented rows; the result is well-formed and truthfully marked"
+#[kani::proof]
+#[kani::unwind(9)]
+fn h_drop_mat2x2_plain() {
+    ck_drop(&[2, 2], 4, false);
+}
+//@ id=C08.e3.drop.mat2x2.map props=C08,C05,C16,C09 level=bounded tier=quick budget=900 bound="byte array of shape [2, 2], amounts 0, 1, 3, 7, -1, isize::MIN and 'all', all truthful mark sets, with map keys (key table abstracted to its row count, per the contracts of MapKeys::drop / take)" desc="Array::drop along the leading axis keeps exactly the documented rows; the result is well-formed and truthfully marked; the key table describes exactly the rows that are left"
+#[kani::proof]
+#[kani::unwind(9)]
+fn h_drop_mat2x2_map() {
+    ck_drop(&[2, 2], 4, true);
 }
 //@ id=C05.e3.meta.mark_helpers props=C05,C09 level=complete tier=quick budget=600 desc="ArrayMeta mark helpers at the bit level: take_sorted_flags / take_value_flags return and clear exactly their group; or_sorted_flags sets only sortedness bits; mark_sorted_* set or clear exactly one bit; reset_flags clears all; an absent meta stays absent unless a bit must be set"
 #[kani::proof]
